@@ -118,7 +118,9 @@ class Impl:
 
     def canon_arr(self, dtype, arr):
         want = {"bool": "b", "int": "i", "float": "f"}[dtype]
-        if arr.dtype.kind != want:
+        if arr.dtype.kind != want and not (dtype == "int" and arr.dtype.kind == "f"):
+            # (an int layer may have been promoted to float64 by a bulk modify with an integral float operand;
+            # `canon` below still insists on integral values)
             raise AssertionError(f"dtype of a {dtype} layer became {arr.dtype}")
         return tuple(self.canon(dtype, x) for x in arr.reshape(-1).tolist())
 
@@ -226,6 +228,10 @@ class Impl:
         return fn, None
 
     def operand(self, dtype, op, v):
+        if dtype == "int" and op in ("add", "sub", "max", "min") and v % 3 == 0:
+            # an integral float operand on an int layer: the values stay integers (the protocol does not see a
+            # difference) but numpy promotes the result to float64 — a dtype-changing bulk modify
+            return float(v)
         if op == "mul":
             return float(v) if dtype == "float" else int(v)
         if op in ("and", "or", "xor"):
